@@ -1,9 +1,10 @@
 (* C14I -- FunctionInlinerPass, validated per inlined call site (model and checker: ISyn.v; proof: IProofs.v). *)
 From Coq Require Import ZArith NArith Bool List String Lia.
-From Verif Require Import C14I.ISyn C14I.IProofs.
+From Verif Require Import C14I.ISyn C14I.IProofs C14I.M2V C14I.M2VProofs C04.Concretize.
 Import ListNotations.
 Open Scope string_scope.
 Open Scope list_scope.
+Open Scope nat_scope.
 
 (* P: a program (list of functions) whose function cf is F (the caller before the pass) and whose function g is G (the
    callee).  exec is the big-step semantics of ISyn.v: a call stack (invoke runs the callee from its entry block with an
@@ -75,3 +76,53 @@ Proof.
 Qed.
 Example ex_run_after : exec _ ex_ext (fun l => Z.of_N l) (set_nth [ex_main; ex_f] 0 ex_main') 0 0 0 empty_env [] [] (RHalt "stop" [] [(1%Z, 8%Z)]).
 Proof. exact (inline_check_sound _ _ _ [ex_main; ex_f] ex_main ex_f ex_main' 0 1 0 1 ex_rho eq_refl eq_refl ex_accepts _ _ _ _ ex_run_before). Qed.
+
+(* ------------------------------------------------------------------ Mem2Var *)
+(* mexec (M2V.v): one function; the 32 bytes of the promoted alloca are an abstract cell of the world (cget / cset) that is
+   read / written exactly by  mload %p  /  mstore %p, v ; every other instruction goes to the oracle ext, which -- fourth
+   premise -- never reads or writes the cell (abstract-alloca semantics: an object is reachable only through its own
+   pointer).  If mem2var_check accepts (F, pointer p, new variable x, "definitely stored" certificate S, result F2) then
+   every complete run of F from its entry is matched by a run of F2 with the same returned values / the same halting
+   instruction and operands, in a world that differs at most in the cell (and not at all when the run ends in a `return`
+   through p: the pass writes the cell back first).  In particular F2 never reads x before assigning it. *)
+Theorem mem2var_check_sound : forall (Wd : Type) (ext : string -> list Z -> Wd -> option (list Z * Wd)) (lv : N -> Z)
+    (cget : Wd -> Z) (cset : Z -> Wd -> Wd),
+  (forall v w, cget (cset v w) = v) -> (forall u v w, cset u (cset v w) = cset u w) -> (forall w, cset (cget w) w = w) ->
+  (forall op args w c, ext op args (cset c w) = match ext op args w with Some (outs, w1) => Some (outs, cset c w1) | None => None end) ->
+  forall (F : func) (p x : N) (S : list nat) (F2 : func), mem2var_check F p x S F2 = true ->
+  forall w res, mexec Wd ext lv cget cset p F 0 0 empty_env w res ->
+  exists res', mexec Wd ext lv cget cset p F2 0 0 empty_env w res' /\ res_sim Wd cset res res'.
+Proof. exact mem2var_check_sound_main. Qed.
+Print Assumptions mem2var_check_sound.
+
+(* the concrete counterpart of the fourth premise for memory accesses through other allocas: when the verified checker of
+   C04 accepts the concretised layout, a write inside one of two simultaneously live allocas leaves the bytes of the
+   other unchanged (concretize_interfering_disjoint => no_overlap_checker_sound => disjoint => frame) *)
+Theorem concretized_allocas_frame : forall globals l, no_overlap_if_interfere globals l = true ->
+  forall i j ra rb, i < j -> nth_error l i = Some ra -> nth_error l j = Some rb ->
+  (a_new ra || a_new rb) = true -> live_meet ra rb = true ->
+  forall m q len bs,
+    ((a_off rb <= q)%Z -> (q + len <= a_off rb + a_size rb)%Z -> forall k, (a_off ra <= k < a_off ra + a_size ra)%Z -> bstore m q len bs k = m k) /\
+    ((a_off ra <= q)%Z -> (q + len <= a_off ra + a_size ra)%Z -> forall k, (a_off rb <= k < a_off rb + a_size rb)%Z -> bstore m q len bs k = m k).
+Proof. exact concretized_frame. Qed.
+Print Assumptions concretized_allocas_frame.
+
+(* non-vacuity:  %0 = calldataload 0 ; %1 = alloca 32 ; mstore %1, %0 ; %2 = mload %1 ; sstore 0, %2 ; stop *)
+Definition mv_f : func :=
+  [ [mkI "calldataload" [OLit 0] [0%N]; mkI "alloca" [OLit 32] [1%N]; mkI "mstore" [OVar 0%N; OVar 1%N] [];
+     mkI "mload" [OVar 1%N] [2%N]; mkI "sstore" [OVar 2%N; OLit 0] []; mkI "stop" [] []] ].
+Definition mv_f' : func :=
+  [ [mkI "calldataload" [OLit 0] [0%N]; mkI "alloca" [OLit 32] [1%N]; mkI "assign" [OVar 0%N] [9%N];
+     mkI "assign" [OVar 9%N] [2%N]; mkI "sstore" [OVar 2%N; OLit 0] []; mkI "stop" [] []] ].
+Example mv_accepts : mem2var_check mv_f 1 9 [] mv_f' = true.
+Proof. vm_compute. reflexivity. Qed.
+(* the pointer stored as a VALUE (mstore %3, %1): not a cell access, the pointer escapes -- rejected *)
+Example mv_rejects_escape :
+  mem2var_domain [ [mkI "calldataload" [OLit 0] [0%N]; mkI "alloca" [OLit 32] [1%N]; mkI "alloca" [OLit 32] [3%N];
+                    mkI "mstore" [OVar 0%N; OVar 1%N] []; mkI "mstore" [OVar 1%N; OVar 3%N] []; mkI "stop" [] []] ] 1 9 = false.
+Proof. vm_compute. reflexivity. Qed.
+(* a read that is not preceded by a write: rejected (the new variable would be read before it is assigned) *)
+Example mv_rejects_read_first :
+  mem2var_check [ [mkI "alloca" [OLit 32] [1%N]; mkI "mload" [OVar 1%N] [2%N]; mkI "mstore" [OVar 2%N; OVar 1%N] []; mkI "stop" [] []] ] 1 9 []
+                [ [mkI "alloca" [OLit 32] [1%N]; mkI "assign" [OVar 9%N] [2%N]; mkI "assign" [OVar 2%N] [9%N]; mkI "stop" [] []] ] = false.
+Proof. vm_compute. reflexivity. Qed.
